@@ -61,4 +61,75 @@ def mustReject (d : Doc) : Bool :=
 the final shared state is the initial one -/
 def specThreads (init : Thr.Shared) : Thr.Shared := ⟨false, init.lc⟩
 
+/-! ## A small grammar of the XML 1.0 prolog (§2.8), for the DOCTYPE-detection part of the scanner
+
+```
+prolog      ::= XMLDecl? Misc* (doctypedecl Misc*)?          document ::= prolog element Misc*
+XMLDecl     ::= '<?xml' S 'version' … '?>'
+Misc        ::= Comment | PI | S
+Comment     ::= '<!--' ((Char - '-') | ('-' (Char - '-')))* '-->'
+PI          ::= '<?' PITarget (S (Char* - (Char* '?>' Char*)))? '?>'      PITarget ≠ [Xx][Mm][Ll]
+doctypedecl ::= '<!DOCTYPE' …
+```
+A text is split as `XMLDecl? Misc*` — given structurally below — followed by a `tail` that is either a
+DOCTYPE declaration or the root element's start tag. -/
+namespace PrologGrammar
+open EPV.Globals.XmlText
+
+/-- comment text: no `--`, and no `-` at the end -/
+def noDD : List Char → Bool
+  | [] => true
+  | ['-'] => false
+  | '-' :: '-' :: _ => false
+  | _ :: t => noDD t
+
+/-- no `?>` inside -/
+def noQG : List Char → Bool
+  | [] => true
+  | '?' :: '>' :: _ => false
+  | _ :: t => noQG t
+
+inductive MiscItem where
+  | comment (body : List Char)
+  | pi (target body : List Char)
+
+/-- well-formedness of one comment / PI -/
+def MiscItem.wf : MiscItem → Bool
+  | .comment b => noDD b
+  | .pi t b =>
+    !t.isEmpty && t.all isNameChar && (t.map Char.toLower != "xml".toList) &&
+    (match b with | [] => true | c :: _ => isWs c) && noQG (t ++ b)
+
+def MiscItem.render : MiscItem → List Char
+  | .comment b => '<' :: '!' :: '-' :: '-' :: (b ++ ['-', '-', '>'])
+  | .pi t b => '<' :: '?' :: (t ++ b ++ ['?', '>'])
+
+/-- `Misc*`: each comment / PI preceded by white space (possibly none) -/
+def renderMisc : List (List Char × MiscItem) → List Char
+  | [] => []
+  | (w, it) :: r => w ++ it.render ++ renderMisc r
+
+def miscWf (items : List (List Char × MiscItem)) : Bool :=
+  items.all fun (w, it) => w.all isWs && it.wf
+
+/-- the optional XML declaration: `<?xml` + one white space character + `body` + `?>`, where `body`
+(after white space) starts with `version` and contains no `?>` -/
+def renderXmlDecl : Option (Char × List Char) → List Char
+  | none => []
+  | some (w, body) => '<' :: '?' :: 'x' :: 'm' :: 'l' :: w :: (body ++ ['?', '>'])
+
+def xmlDeclWf : Option (Char × List Char) → Bool
+  | none => true
+  | some (w, body) => isWs w && noQG body && (stripPrefix "version".toList (skipWs body)).isSome
+
+/-- the construct after `XMLDecl? Misc* S?`: a DOCTYPE declaration … -/
+def startsDoctype (tail : List Char) : Bool := (stripPrefix "<!DOCTYPE".toList tail).isSome
+
+/-- … or the start tag of the root element (`<` followed by neither `!` nor `?`) -/
+def startsRoot : List Char → Bool
+  | '<' :: c :: _ => c != '!' && c != '?'
+  | _ => false
+
+end PrologGrammar
+
 end EPV.GlobalsSpec
